@@ -190,6 +190,13 @@ func TestVerif_C14(t *testing.T) {
 						if old.Fwd {
 							nf.OHCIP, nf.OHCTeid = vIPStr(old.IP), old.Teid
 						}
+					case 2:
+						// another base station that happens to use the same TEID / the same base station with another TEID
+						if old.Fwd && rng.Intn(2) == 0 {
+							nf.OHCTeid = old.Teid
+						} else if old.Fwd {
+							nf.OHCIP = vIPStr(old.IP)
+						}
 					}
 					flag := old.Fwd && rng.Intn(2) == 0
 					if flag {
@@ -197,6 +204,10 @@ func TestVerif_C14(t *testing.T) {
 						want = append(want, exp{id, old})
 					} else if rng.Intn(3) == 0 {
 						nf.SMFlags = true // flags IE present, SNDEM bit clear
+					}
+					if rng.Intn(3) == 0 {
+						// other bits of the flags octet (drop buffered packets, query URRs, spare) do not change what SNDEM means
+						nf.SMExtra = []uint8{0x01, 0x04, 0x05, 0x80, 0xFD}[rng.Intn(5)]
 					}
 					mod.UpFAR = append(mod.UpFAR, nf)
 					if nf.Action&ActionForward != 0 {
@@ -270,6 +281,23 @@ func TestVerif_C14(t *testing.T) {
 				}
 				if len(mine) != len(want) {
 					res.violate("C14.R1", fmt.Sprintf("marker-count want=%d got=%d accepted=%v", len(want), len(mine), accepted), fmt.Sprintf("%d end marker(s) emitted, %d expected (one per updated FAR with the send-end-marker flag that existed before)", len(mine), len(want)), w)
+				}
+				// exactly one marker per flagged FAR, each to that FAR's own previous tunnel (multiset equality)
+				if len(mine) == len(want) {
+					type tun struct{ ip, teid uint32 }
+					need := map[tun]int{}
+					for _, e := range want {
+						need[tun{e.old.IP, e.old.Teid}]++
+					}
+					for _, mk := range mine {
+						need[tun{mk.Dst, mk.Teid}]--
+					}
+					for k, v := range need {
+						if v > 0 {
+							res.violate("C14.R3", "old-tunnel-without-marker", fmt.Sprintf("no end marker reached the previous tunnel %s TEID %#x of a flagged FAR although %d marker(s) were emitted (markers: %+v)", vIPStr(k.ip), k.teid, len(mine), mine), w)
+							break
+						}
+					}
 				}
 				for _, mk := range mine {
 					if !mk.OK || mk.MsgType != 254 {
